@@ -51,6 +51,14 @@ def solver_case(rep, spec, index):
     rng = gen.case_rng(PROP + "S", spec["seed"], spec["shard"], index)
     fc = gen.FluxCase(rng, p_membrane=0.3, modes=["V", "T", "T", "Tnear", "P", "Psmall", "P0"], edge=0.02)
     fc.comp = gen.to_weight_exact(fc.comp, fc.mix)
+    if rng.random() < 0.06:
+        # a nearly pure feed: 0.1 .. 100 ppm of one component (traces of solvent in water, the last stage of a dehydration)
+        trace = 10 ** (-rng.uniform(4, 7))
+        fc.comp = Composition(p=trace if rng.random() < 0.5 else 1 - trace, type="weight")
+        try:
+            fc.tp, fc.pp = gen.gen_permeate(rng, fc.mode if fc.mode != "Pneutral" else "P", fc.mix, fc.t_feed, fc.comp, fc.model)
+        except Exception:
+            fc.mode, fc.tp, fc.pp = "V", None, None
     fc.precision = gen.loguniform(rng, 1e-10, 1e-8)
     xm = gen.to_molar_exact(fc.comp, fc.mix)
     extra = [gen.gen_composition(rng, fc.mix, basis="weight", edge=0.02) for _ in range(2)]
